@@ -231,6 +231,61 @@ def check_sequences(repo, rep):
     rep.floor(rid, 30)
 
 
+def check_order_histories(repo, rep):
+    """the ledger after histories that go through the ORDER's own transitions (Order.execute / Order.cancel decide whether the
+    exchange handler runs at all): a finished order is inert - 'also after any number of earlier cancellations'"""
+    rid = "C04-R8"
+    rep.rule(rid, "submit followed by every two-step history of Order.execute / Order.cancel (the repository's Order methods on the "
+                  "repository's SpotExchange; position, trade store and notifications are sinks): the ledgers equal the cash account fed "
+                  "with the EFFECTIVE operations only - the first transition counts, whatever is called on the finished order changes nothing")
+    sides = {"buy": W.enum_value(repo, "sides", "BUY"), "sell": W.enum_value(repo, "sides", "SELL")}
+    types = {k: W.enum_value(repo, "order_types", k) for k in ("MARKET", "LIMIT", "STOP")}
+    smp = {"B": F(4), "Q": F(100), "S": F(1), "L": F(1), "q": F(2), "p": F(5), "f": F(1, 10), "now": F(1000), "t_created": F(0)}
+    n = 0
+    for side in ("buy", "sell"):
+        for typ in ("MARKET", "LIMIT", "STOP"):
+            for seq in (("execute", "cancel"), ("cancel", "execute"), ("cancel", "cancel"), ("execute", "execute")):
+                def mk(dec, side=side, typ=typ, seq=seq):
+                    it = Interp(repo, stubs=W.base_stubs(), samples=[dict(smp)], nonneg={"q", "p", "f", "B", "Q", "S", "L"}, decisions=dec)
+                    ex = make_exchange(repo, initial_state())
+                    trades = Obj("ClosedTrades", name="store.completed_trades", attrs={})
+                    W.bind(trades, "add_executed_order", lambda i, a, k: None)
+                    pos = Obj("Position", name="position", attrs={}, open_world=True)
+                    W.bind(pos, "_on_executed_order", lambda i, a, k: None)
+                    store = Obj("StoreClass", name="store", attrs={"completed_trades": trades}, open_world=True)
+                    it.overrides[f"{W.STORE}:store"] = store
+                    it.stubs[f"{W.SELECTORS}:get_exchange"] = lambda i, a, k: ex
+                    it.stubs[f"{W.SELECTORS}:get_position"] = lambda i, a, k: pos
+                    qty = A("q") if side == "buy" else -A("q")
+                    o = W.make_order(repo, "O", sides[side], types[typ], qty, A("p"), symbol=SYM)
+                    it.ex = ex
+
+                    def thunk(it):
+                        it.call(it.getattr(ex, "on_order_submission"), [o], {})
+                        for m in seq:
+                            it.call(it.getattr(o, m), [], {})
+                    return it, thunk
+                try:
+                    outs = explore(mk, 32)
+                except NotInFragment as e:
+                    raise AnalysisError(f"C04-R8: Order.{'/'.join(seq)} on the spot ledger is outside the interpreted fragment: {e}")
+                for out in outs:
+                    n += 1
+                    key = f"submit+{'+'.join(seq)}|{side}|{typ}"
+                    if out.kind != "return":
+                        rep.violation(rid, key + "|raises", f"{key}: raises {out.value}")
+                        continue
+                    st = initial_state()
+                    for op in ("submit", seq[0]):          # the second call meets a finished order
+                        st, _, _ = model(op, side, typ, st, smp)
+                    got = read_state(out.interp.ex)
+                    if not same_state(got, st):
+                        rep.violation(rid, key, f"after submit ; Order.{seq[0]}() ; Order.{seq[1]}() of a {side} {typ} order the ledgers differ from the cash account "
+                                                f"(in which the order is finished after {seq[0]} and {seq[1]} changes nothing): {diff_state(got, st)}")
+                    rep.instance(rid, key, {"state": {k: repr(v) for k, v in got.items()}})
+    rep.floor(rid, 24)
+
+
 def check_position_qty(repo, rep):
     rid = "C04-R6"
     rep.rule(rid, "Position._update_qty (spot): set -> q(1-f), add -> P + q(1-f), subtract -> P - q, so the position size "
@@ -383,6 +438,7 @@ def run(repo: Repo, rep, tier: str):
     rep.assume("backtest mode (is_livetrading False); base/quote/sums/qty/price/fee are non-negative reals")
     rep.guarded(check_handlers, repo, rep)
     rep.guarded(check_sequences, repo, rep)
+    rep.guarded(check_order_histories, repo, rep)
     rep.guarded(check_position_qty, repo, rep)
     rep.guarded(check_spot_never_short, repo, rep)
     rep.guarded(check_decimal_discipline, repo, rep)
